@@ -1516,19 +1516,31 @@ fn inject_define_component_option(call: &mut CallExpr, name: &'static str, value
 
     match options.map(|options| &mut *options.expr) {
         Some(Expr::Object(object)) => {
-            if !object.props.iter().any(|prop| {
-                prop.as_prop()
-                    .and_then(|prop| prop.as_key_value())
-                    .and_then(|key_value| key_value.key.as_ident())
-                    .map(|ident| ident.sym == name)
-                    .unwrap_or_default()
+            let is_name = |key: &PropName| match key {
+                PropName::Ident(ident) => ident.sym == name,
+                PropName::Str(str) => str.value == name,
+                _ => false,
+            };
+            if !object.props.iter().any(|prop| match prop {
+                PropOrSpread::Prop(prop) => match &**prop {
+                    Prop::Shorthand(ident) => ident.sym == name,
+                    Prop::Assign(AssignProp { key, .. }) => key.sym == name,
+                    Prop::KeyValue(KeyValueProp { key, .. })
+                    | Prop::Getter(GetterProp { key, .. })
+                    | Prop::Setter(SetterProp { key, .. })
+                    | Prop::Method(MethodProp { key, .. }) => is_name(key),
+                },
+                PropOrSpread::Spread(..) => false,
             }) {
-                object
-                    .props
-                    .push(PropOrSpread::Prop(Box::new(Prop::KeyValue(KeyValueProp {
-                        key: PropName::Ident(quote_ident!(name)),
-                        value: Box::new(value),
-                    }))));
+                let injected = PropOrSpread::Prop(Box::new(Prop::KeyValue(KeyValueProp {
+                    key: PropName::Ident(quote_ident!(name)),
+                    value: Box::new(value),
+                })));
+                // options spread by user may carry the same key and must win
+                match object.props.iter().position(|prop| prop.is_spread()) {
+                    Some(index) => object.props.insert(index, injected),
+                    None => object.props.push(injected),
+                }
             }
         }
         Some(..) => {
